@@ -356,6 +356,7 @@ pub struct ExFromUtf8Error(std::string::FromUtf8Error);
 pub fn rws_string_from_utf8(v: Vec<u8>) -> (r: Result<String, std::string::FromUtf8Error>)
     ensures
         bytes_ascii(v@) ==> r.is_ok(),
+        r.is_ok() ==> vstd::utf8::encode_utf8(r.unwrap()@) == v@,
         r.is_ok() ==> r.unwrap()@.len() <= v@.len(),
         r.is_ok() && bytes_ascii(v@) ==> r.unwrap()@.len() == v@.len()
             && forall|i: int| 0 <= i < v@.len() ==> #[trigger] r.unwrap()@[i] == (v@[i] as char),
@@ -454,11 +455,24 @@ pub trait RwsStr2 {
     fn rws_split_once<'a>(&'a self, sep: &str) -> (r: Option<(&'a str, &'a str)>)
         ensures
             r.is_none() <==> !has_sub(self.sv2(), sep@),
-            r.is_some() ==> self.sv2() == r.unwrap().0@ + sep@ + r.unwrap().1@ && !has_sub(r.unwrap().0@, sep@);
+            r.is_some() ==> self.sv2() == r.unwrap().0@ + sep@ + r.unwrap().1@ && !has_sub(r.unwrap().0@, sep@),
+            r.is_none() <==> split_once_spec(self.sv2(), sep@).is_none(),
+            r.is_some() ==> (r.unwrap().0@, r.unwrap().1@) == split_once_spec(self.sv2(), sep@).unwrap();
     fn rws_to_lowercase(&self) -> (r: String)
         ensures r@ == lower_spec(self.sv2());
     fn rws_to_uppercase(&self) -> (r: String)
         ensures r@ == upper_spec(self.sv2());
+}
+// the split at the FIRST occurrence of sep
+pub uninterp spec fn split_once_spec(s: Seq<char>, sep: Seq<char>) -> Option<(Seq<char>, Seq<char>)>;
+#[verifier::external_body]
+pub proof fn axiom_split_once(s: Seq<char>, sep: Seq<char>)
+    requires sep.len() > 0,
+    ensures
+        split_once_spec(s, sep).is_none() <==> !has_sub(s, sep),
+        split_once_spec(s, sep).is_some() ==> s == split_once_spec(s, sep).unwrap().0 + sep + split_once_spec(s, sep).unwrap().1
+            && !has_sub(split_once_spec(s, sep).unwrap().0, sep),
+{
 }
 pub uninterp spec fn lower_spec(s: Seq<char>) -> Seq<char>;
 pub uninterp spec fn upper_spec(s: Seq<char>) -> Seq<char>;
@@ -1047,4 +1061,58 @@ impl RwsClone for String {
 impl RwsClone for Vec<u8> {
     #[verifier::external_body]
     fn rws_clone(&self) -> Vec<u8> { self.clone() }
+}
+
+// str::replace(from, to): only the instance the code uses is specified - removing every occurrence of a one-character pattern
+pub open spec fn without_char(s: Seq<char>, c: char) -> Seq<char>
+    decreases s.len()
+{
+    if s.len() == 0 { Seq::empty() } else if s.last() == c { without_char(s.drop_last(), c) } else { without_char(s.drop_last(), c).push(s.last()) }
+}
+pub trait RwsReplace {
+    spec fn sv7(&self) -> Seq<char>;
+    fn rws_replace(&self, from: &str, to: &str) -> (r: String)
+        ensures from@.len() == 1 && to@.len() == 0 ==> r@ == without_char(self.sv7(), from@[0]);
+}
+impl RwsReplace for str {
+    open spec fn sv7(&self) -> Seq<char> { self@ }
+    #[verifier::external_body]
+    fn rws_replace(&self, from: &str, to: &str) -> String { self.replace(from, to) }
+}
+impl RwsReplace for String {
+    open spec fn sv7(&self) -> Seq<char> { self@ }
+    #[verifier::external_body]
+    fn rws_replace(&self, from: &str, to: &str) -> String { self.replace(from, to) }
+}
+pub proof fn lemma_without_char(s: Seq<char>, c: char, d: char)
+    ensures
+        forall|i: int| 0 <= i < without_char(s, c).len() ==> #[trigger] without_char(s, c)[i] != c,
+        (forall|i: int| 0 <= i < s.len() ==> #[trigger] s[i] != d) ==> (forall|i: int| 0 <= i < without_char(s, c).len() ==> #[trigger] without_char(s, c)[i] != d),
+        without_char(s, c).len() <= s.len(),
+        (forall|i: int| 0 <= i < s.len() ==> #[trigger] s[i] != c) ==> without_char(s, c) == s,
+    decreases s.len()
+{
+    if s.len() > 0 {
+        let t = s.drop_last();
+        lemma_without_char(t, c, d);
+        assert(forall|i: int| 0 <= i < t.len() ==> t[i] == s[i]);
+        if forall|i: int| 0 <= i < s.len() ==> #[trigger] s[i] != c {
+            assert(forall|i: int| 0 <= i < t.len() ==> #[trigger] t[i] != c);
+            assert(without_char(s, c) =~= s);
+        }
+        if forall|i: int| 0 <= i < s.len() ==> #[trigger] s[i] != d {
+            assert(forall|i: int| 0 <= i < t.len() ==> #[trigger] t[i] != d);
+        }
+    }
+}
+
+// R-FIND: typed `None` for the result of the desugared search loop (verified, not assumed)
+pub trait RwsFindInit {
+    type Item;
+    fn rws_find_init(&self) -> (r: Option<&Self::Item>)
+        ensures r.is_none();
+}
+impl<T> RwsFindInit for Vec<T> {
+    type Item = T;
+    fn rws_find_init(&self) -> (r: Option<&T>) { None }
 }
